@@ -75,9 +75,10 @@ CLAIMED = {
          "Tie: implementation = object machine on all cases; implementation = ConnM (logs, source subscription count, registrations) on directly subscribed ones.",
          "§5 C13", "Lean 4 proof: induction over call sequences of mirrored state machines + per-run differential correspondence"),
  "C15": ("partial: Theorems Rx.Timed.* (C15.lean) in virtual time: interval_exits_within_one_period (+ liveness), timer_exits, debounce_exits, "
-         "timeout_timer_exits_partial, no_accumulation; with C08 worker_exits and C09 abort_only_after_end. The timeout model predates the repair of the "
-         "timer leak found by this check (fix: commit) - its partial theorem (2 periods) is weaker than the repaired code. Tie: ~100 scenarios thread-creating "
-         "operator x terminating cause under seeded schedules in virtual time: every library thread has exited at quiescence and no later than one "
+         "timeout_timer_exits (one period; the model mirrors timeout.rs after the two timer-leak repairs found by this check and by the proof itself), "
+         "timeout_timer_exits_partial, no_accumulation; with C08 worker_exits and C09 abort_only_after_end. Tie: ~125 scenarios thread-creating "
+         "operator x terminating cause (including the subscription ended by another thread at the very instant an item arrives / a timer fires) under "
+         "seeded schedules in virtual time: every library thread has exited at quiescence and no later than one "
          "timer period after the subscription ended. NOT modelled: OS thread teardown; nestings beyond the catalogue.",
          "§5 C15", "Lean 4 proof (virtual-time LTSs, partial) + exploration in virtual time with thread accounting"),
  "C16": ("partial: Theorems Rx.Timed.* (C16.lean) in discrete virtual time, all periods and gap scripts, all interleavings within an instant: interval_ticks, "
